@@ -6,6 +6,7 @@
 //       prints  v=<7 bits> ir=<KernelIR extracted from occa's own statement tree>
 //       oracles: a translator accepts a rule-breaking kernel / rejects a conforming one;
 //                translators disagree where the property demands agreement.
+//   G <hex-okl-source>   the seven translations as hex text (device source[:launcher source])
 //   S <hex-okl-source>
 //       prints the canonical structure summary of the serial, openmp and cuda/opencl/metal/dpcpp
 //       translations, read from each translator's transformed statement tree:
@@ -414,6 +415,24 @@ int main() {
           else {
             out << sumRoot(p->root);
             if (m == 2) out << " launch=" << sumLauncher(((okl::withLauncher*) p)->launcherParser.root);
+          }
+          delete p;
+        }
+        return out.str();
+      }
+      if (t[0] == "G" && t.size() >= 2 && hp::unhex(t[1], src)) {
+        // the translations themselves (hex), for the execution checks: device source and, for the
+        // launcher-based translators, the host launcher source after a colon
+        occa::json props;
+        std::ostringstream out;
+        for (int m = 0; m < 7; ++m) {
+          parser_t *p = makeParser(m, props);
+          p->parseSource(src);
+          out << (m ? " " : "") << MODES[m] << "=";
+          if (!p->succeeded()) out << "fail";
+          else {
+            out << hp::hex(p->toString());
+            if (m >= 2) out << ":" << hp::hex(((okl::withLauncher*) p)->launcherParser.toString());
           }
           delete p;
         }
